@@ -66,6 +66,9 @@ def substitute (subst : Val) (matched : List Nat) (caps : List Val) : Except Err
     .ok (toStr v)
   | v => .ok (toStr v)
 
+/-- text[a, b) -/
+def sl (text : List Nat) (a b : Nat) : List Nat := (text.drop a).take (b - a)
+
 /-- cfun_peg_replace_generic; `n` = Lean fuel (len - start + 1 suffices); returns (output so far, trail) -/
 def replaceLoop (m : Matcher) (text : List Nat) (subst : Val) (onlyOne : Bool) :
     Nat → Nat → Nat → List Nat → Except Err (List Nat × Nat)
@@ -74,10 +77,11 @@ def replaceLoop (m : Matcher) (text : List Nat) (subst : Val) (onlyOne : Bool) :
     if i < text.length then do
       match ← m i with
       | some (nexti, caps) => do
-        let (out1, trail1) := if trail < i then (out ++ (text.drop trail).take (i - trail), i) else (out, trail)
-        let _ := trail1
-        let sub ← substitute subst ((text.drop i).take (nexti - i)) caps
+        -- if (trail < i) push text[trail, i)
+        let out1 := if trail < i then out ++ sl text trail i else out
+        let sub ← substitute subst (sl text i nexti) caps
         let out2 := out1 ++ sub
+        -- trail = nexti; if (nexti == i) nexti++; i = nexti; if (only_one) break
         let i' := if nexti == i then nexti + 1 else nexti
         if onlyOne then .ok (out2, nexti) else replaceLoop m text subst onlyOne n i' nexti out2
       | none => replaceLoop m text subst onlyOne n (i + 1) trail out
@@ -87,14 +91,30 @@ def pegReplace (m : Matcher) (text : List Nat) (subst : Val) (onlyOne : Bool) (s
   let (out, trail) ← replaceLoop m text subst onlyOne (text.length + 1 - start) start 0 []
   .ok (if trail < text.length then out ++ text.drop trail else out)
 
-/-! ### the same entry points phrased over a plain "does it match at i / where does it end" oracle:
-      what "agrees with repeated matching" means -/
+/-! ### what "agrees with repeated matching" means for replace / replace-all: a closed form over positions
 
-/-- all i in [start, len) at which a match attempt succeeds -/
-def matchingPositions (m : Matcher) (len start : Nat) : Except Err (List Nat) :=
-  (List.range' start (len - start)).filterMapM (fun i => do
-    match ← m i with
-    | some _ => .ok (some i)
-    | none => .ok none)
+`f i` = result of a single match attempt at `i` (end position, captures); `g matched caps` = the replacement text.
+Walking the positions from `start`: an unmatched byte is copied; at a match the replacement is emitted and the walk
+continues at the end of the match - or, after an EMPTY match, the byte at `i` is copied and the walk continues at `i + 1`
+(`if (nexti == i) nexti++` in the C: advance by max(1, consumed)).  `one` = peg/replace: stop after the first match. -/
+
+def replSpecGo (f : Nat → Option (Nat × List Val)) (g : List Nat → List Val → List Nat) (text : List Nat) (one : Bool) :
+    Nat → Nat → List Nat
+  | 0, _ => []
+  | n + 1, i =>
+    if i < text.length then
+      match f i with
+      | none => sl text i (i + 1) ++ replSpecGo f g text one n (i + 1)
+      | some (e, caps) =>
+        g (sl text i e) caps ++
+          (if one then text.drop e
+           else if e == i then sl text i (i + 1) ++ replSpecGo f g text one n (i + 1)
+           else replSpecGo f g text one n e)
+    else []
+
+/-- the bytes before `start` are kept, then the walk -/
+def replSpec (f : Nat → Option (Nat × List Val)) (g : List Nat → List Val → List Nat) (text : List Nat) (one : Bool)
+    (start : Nat) : List Nat :=
+  text.take start ++ replSpecGo f g text one (text.length + 1 - start) start
 
 end JanetModel.Peg
